@@ -3,6 +3,8 @@
 (* C09, arithmetic clause, symbolically (Apalache): the lemmas of          *)
 (* SeqArith.tla for ALL 65536 x 65536 pairs with the real constants, as    *)
 (* invariants of a one-state system whose initial states are all pairs.    *)
+(* WW = 32767 = M/2 - 1 is the tolerance (the largest with 2W < M); OldW =  *)
+(* 1024 is the former one (defect D8).                                      *)
 (* Extra evidence next to the TLC runs of MCSeq (which enumerate the band  *)
 (* within tolerance and the scaled instances); in particular DependsOnDLt  *)
 (* for all pairs licenses the 131072-entry table of MCSeq!Table.           *)
@@ -18,7 +20,8 @@ VARIABLES
     b
 
 MM == 65536
-WW == 1024
+WW == 32767
+OldW == 1024
 
 Init == a \in 0..(MM - 1) /\ b \in 0..(MM - 1)
 Next == UNCHANGED <<a, b>>
@@ -32,10 +35,20 @@ OrdAgrees             == OrdAgreesAt(a, b, MM, WW)
 OrdIsPlainBeyond      == OrdIsPlainBeyondAt(a, b, MM, WW)
 OrdInvertedAcrossWrap == OrdInvertedAcrossWrapAt(a, b, MM, WW)
 
+(* with the largest tolerance the order is the modular order on every pair whose modular order is unambiguous *)
+OrdAlwaysModular == 2 * Abs(Dist(a, b, MM)) < MM => SeqCmp(a, b, MM, WW) = SeqSign(Dist(a, b, MM))
+
+(* the lemmas that license the second table (seq_nr_offset(a, b, 1024) as a pure function) *)
+LemmasOld ==
+    /\ OffsetAgreesAt(a, b, MM, OldW) /\ OffsetClosedFormAt(a, b, MM, OldW)
+    /\ OffsetDependsOnDLtAt(a, b, MM, OldW) /\ OffsetAntisymAt(a, b, MM, OldW)
+
 Lemmas ==
     /\ OffsetAgrees /\ ClosedForm /\ DependsOnDLt /\ Antisym /\ ZeroIffEqual
     /\ OrdAgrees /\ OrdIsPlainBeyond /\ OrdInvertedAcrossWrap
+    /\ OrdAlwaysModular /\ LemmasOld
 
-(* sanity of the method: this one must be REFUTED (the order is wrong across the wrap beyond WW) *)
-OrdAlwaysModular == 2 * Abs(Dist(a, b, MM)) < MM => SeqCmp(a, b, MM, WW) = SeqSign(Dist(a, b, MM))
+(* sanity of the method, and the documentation of D8: with the former tolerance 1024 this one must be REFUTED *)
+(* (the order is wrong across the wrap beyond the tolerance)                                                  *)
+OrdAlwaysModularOld == 2 * Abs(Dist(a, b, MM)) < MM => SeqCmp(a, b, MM, OldW) = SeqSign(Dist(a, b, MM))
 =============================================================================
